@@ -44,6 +44,13 @@ func (s Set) Equal(t Term) bool {
 			return false
 		}
 	}
+	// and the other way round: a set written with a repeated member has as many
+	// entries as a larger one it is included in, and equality must be symmetric
+	for _, id := range c {
+		if !s.contains(id) {
+			return false
+		}
+	}
 	return true
 }
 
